@@ -230,7 +230,7 @@ def histories(draw, kinds=KINDS):
     if kind == "beam":
         case["member"] = draw(gb.member_specs(dims=(2,), types=("SEG2", "SEG3")))
     if kind == "elastic_dyn":
-        case["algo"] = draw(st.sampled_from(["newmark", "midpoint", "hht"]))
+        case["algo"] = draw(st.sampled_from(["newmark", "midpoint", "hht", "hht_newmark", "euler_implicit", "euler_explicit"]))
     if kind == "phasefield":
         case["pfsolver"] = draw(st.sampled_from(["History", "HistoryDamage", "BoundConstrain"]))
         case["regu"] = draw(st.sampled_from(["AT1", "AT2"]))
